@@ -185,7 +185,7 @@ Print Assumptions C19_side_history.
    remaining statements are object glue and are checked verbatim: *)
 Theorem C19_source_skeletons :
   gen_c19_gridcell_reduce_skeleton_ok && gen_c19_grid_setstate_skeleton_ok
-  && gen_c19_dspace_setstate_skeleton_ok && gen_c19_aset_skeleton_ok = true.
+  && gen_c19_dspace_setstate_skeleton_ok && gen_c19_aset_skeleton_ok && gen_c19_cell_add_remove_skeleton_ok = true.
 Proof. exact skeletons_ok. Qed.
 Print Assumptions C19_source_skeletons.
 
